@@ -55,8 +55,8 @@ def make_judges(ctx):
         if ev.result != want:
             ctx.violation('get_dtype', 'get_dtype(%r) of %s (configured %s) returned %r, expected %r' % (req, R.dtype_fxp(*p.fmt()), cfgnot, ev.result, want), ev,
                           key='dtype.get_dtype_%s' % req)
-        if q is not None and q.dtype != spell(q.signed, q.n_word, q.n_frac, q.is_complex, cfgnot):
-            ctx.violation('dtype_attr', 'after get_dtype(%r) the dtype attribute is %r but the configured notation is %s' % (req, q.dtype, cfgnot), ev)
+        # (whether get_dtype(notation) leaves the `dtype` attribute in the requested or in the configured notation is not
+        #  stated by the property; it is not asserted)
         ctx.judged(key_of(p, cfgnot, req, 'get_dtype'), nontrivial(p, cfgnot, req), None)
         ctx.floor_hit(('get_dtype', cfgnot, req))
 
